@@ -154,8 +154,17 @@ impl<'a, P: ?Sized + PathImpl> PathMutImpl<'a, P> {
 				i -= 1
 			}
 
-			replace(self.buffer, i..self.end, &[]);
-			self.end = i;
+			if i == start && self.buffer[i] == b'/' && self.is_absolute() {
+				// Ambiguous case `//foo` where removing `/foo` would leave
+				// `/`, dropping the empty first segment.
+				// Instead we leave `/./`, as `parent` does.
+				replace(self.buffer, i..self.end, b"./");
+				self.end = i + 2;
+			} else {
+				replace(self.buffer, i..self.end, &[]);
+				self.end = i;
+			}
+
 			true
 		} else {
 			false
